@@ -149,16 +149,10 @@ func (s *S3Proxy) CreateBucket(ctx context.Context, input *s3.CreateBucketInput,
 		return handleError(err)
 	}
 
-	var tagSet []types.Tag
-	tagSet = append(tagSet, types.Tag{
-		Key:   backend.GetPtrFromString(aclKey),
-		Value: backend.GetPtrFromString(base64Encode(acl)),
-	})
-
 	_, err = s.client.PutBucketTagging(ctx, &s3.PutBucketTaggingInput{
 		Bucket: input.Bucket,
 		Tagging: &types.Tagging{
-			TagSet: tagSet,
+			TagSet: aclTags(acl),
 		},
 	})
 	return handleError(err)
@@ -1303,6 +1297,39 @@ func (s *S3Proxy) DeleteObjects(ctx context.Context, input *s3.DeleteObjectsInpu
 	}, nil
 }
 
+// The gateway keeps the bucket ACL in reserved tags of the backend bucket.
+// A tag value holds at most 256 characters, so the encoded ACL is spread
+// over versitygwAcl, versitygwAcl1, versitygwAcl2, ... as needed.
+const aclTagValueLen = 256
+
+func isAclTag(key *string) bool {
+	return key != nil && strings.HasPrefix(*key, aclKey)
+}
+
+func aclTagKey(i int) string {
+	if i == 0 {
+		return aclKey
+	}
+	return fmt.Sprintf("%v%v", aclKey, i)
+}
+
+func aclTags(data []byte) []types.Tag {
+	enc := base64Encode(data)
+	var tags []types.Tag
+	for i := 0; len(enc) > 0 || i == 0; i++ {
+		n := len(enc)
+		if n > aclTagValueLen {
+			n = aclTagValueLen
+		}
+		tags = append(tags, types.Tag{
+			Key:   backend.GetPtrFromString(aclTagKey(i)),
+			Value: backend.GetPtrFromString(enc[:n]),
+		})
+		enc = enc[n:]
+	}
+	return tags
+}
+
 func (s *S3Proxy) GetBucketAcl(ctx context.Context, input *s3.GetBucketAclInput) ([]byte, error) {
 	if input.ExpectedBucketOwner != nil && *input.ExpectedBucketOwner == "" {
 		input.ExpectedBucketOwner = nil
@@ -1326,52 +1353,130 @@ func (s *S3Proxy) GetBucketAcl(ctx context.Context, input *s3.GetBucketAclInput)
 		return nil, handleError(err)
 	}
 
+	parts := map[string]string{}
 	for _, tag := range tagout.TagSet {
-		if *tag.Key == aclKey {
-			acl, err := base64Decode(*tag.Value)
-			if err != nil {
-				return nil, handleError(err)
-			}
-			return acl, nil
+		if isAclTag(tag.Key) {
+			parts[*tag.Key] = backend.GetStringFromPtr(tag.Value)
 		}
 	}
-
-	return []byte{}, nil
+	var enc strings.Builder
+	for i := 0; ; i++ {
+		part, ok := parts[aclTagKey(i)]
+		if !ok {
+			break
+		}
+		enc.WriteString(part)
+	}
+	if enc.Len() == 0 {
+		return []byte{}, nil
+	}
+	acl, err := base64Decode(enc.String())
+	if err != nil {
+		return nil, handleError(err)
+	}
+	return acl, nil
 }
 
 func (s *S3Proxy) PutBucketAcl(ctx context.Context, bucket string, data []byte) error {
-	tagout, err := s.client.GetBucketTagging(ctx, &s3.GetBucketTaggingInput{
-		Bucket: &bucket,
-	})
+	existing, err := s.backendBucketTags(ctx, bucket)
 	if err != nil {
-		return handleError(err)
+		return err
 	}
 
-	var found bool
-	for i, tag := range tagout.TagSet {
-		if *tag.Key == aclKey {
-			tagout.TagSet[i] = types.Tag{
-				Key:   backend.GetPtrFromString(aclKey),
-				Value: backend.GetPtrFromString(base64Encode(data)),
-			}
-			found = true
-			break
+	tagSet := aclTags(data)
+	for _, tag := range existing {
+		if !isAclTag(tag.Key) {
+			tagSet = append(tagSet, tag)
 		}
-	}
-	if !found {
-		tagout.TagSet = append(tagout.TagSet, types.Tag{
-			Key:   backend.GetPtrFromString(aclKey),
-			Value: backend.GetPtrFromString(base64Encode(data)),
-		})
 	}
 
 	_, err = s.client.PutBucketTagging(ctx, &s3.PutBucketTaggingInput{
 		Bucket: &bucket,
 		Tagging: &types.Tagging{
-			TagSet: tagout.TagSet,
+			TagSet: tagSet,
 		},
 	})
 	return handleError(err)
+}
+
+// backendBucketTags returns the tag set stored at the backend for the bucket
+// (empty when it has none)
+func (s *S3Proxy) backendBucketTags(ctx context.Context, bucket string) ([]types.Tag, error) {
+	tagout, err := s.client.GetBucketTagging(ctx, &s3.GetBucketTaggingInput{
+		Bucket: &bucket,
+	})
+	if err != nil {
+		var ae smithy.APIError
+		if errors.As(err, &ae) && strings.Contains(ae.ErrorCode(), "NoSuchTagSet") {
+			return nil, nil
+		}
+		return nil, handleError(err)
+	}
+	return tagout.TagSet, nil
+}
+
+// The gateway keeps the bucket ACL in a reserved tag of the backend bucket:
+// the client's bucket tags are stored next to it and never replace it.
+func (s *S3Proxy) PutBucketTagging(ctx context.Context, bucket string, tags map[string]string) error {
+	existing, err := s.backendBucketTags(ctx, bucket)
+	if err != nil {
+		return err
+	}
+
+	tagSet := []types.Tag{}
+	for _, tag := range existing {
+		if isAclTag(tag.Key) {
+			tagSet = append(tagSet, tag)
+		}
+	}
+	for key, val := range tags {
+		if strings.HasPrefix(key, aclKey) {
+			return s3err.GetAPIError(s3err.ErrInvalidTag)
+		}
+		tagSet = append(tagSet, types.Tag{
+			Key:   backend.GetPtrFromString(key),
+			Value: backend.GetPtrFromString(val),
+		})
+	}
+
+	if len(tagSet) == 0 {
+		_, err = s.client.DeleteBucketTagging(ctx, &s3.DeleteBucketTaggingInput{
+			Bucket: &bucket,
+		})
+		return handleError(err)
+	}
+
+	_, err = s.client.PutBucketTagging(ctx, &s3.PutBucketTaggingInput{
+		Bucket: &bucket,
+		Tagging: &types.Tagging{
+			TagSet: tagSet,
+		},
+	})
+	return handleError(err)
+}
+
+func (s *S3Proxy) GetBucketTagging(ctx context.Context, bucket string) (map[string]string, error) {
+	existing, err := s.backendBucketTags(ctx, bucket)
+	if err != nil {
+		return nil, err
+	}
+
+	tags := make(map[string]string)
+	for _, tag := range existing {
+		if tag.Key == nil || isAclTag(tag.Key) {
+			continue
+		}
+		tags[*tag.Key] = backend.GetStringFromPtr(tag.Value)
+	}
+	if len(tags) == 0 {
+		return nil, s3err.GetAPIError(s3err.ErrBucketTaggingNotFound)
+	}
+
+	return tags, nil
+}
+
+func (s *S3Proxy) DeleteBucketTagging(ctx context.Context, bucket string) error {
+	return s.PutBucketTagging(ctx, bucket, nil)
 }
 
 func (s *S3Proxy) PutObjectTagging(ctx context.Context, bucket, object string, tags map[string]string) error {
